@@ -478,27 +478,39 @@ func (doc *T) derefRequestBody(r RequestBody, refNameResolver RefNameResolver, p
 	doc.derefContent(r.Content, refNameResolver, parentIsExternal)
 }
 
-func (doc *T) derefPaths(paths map[string]*PathItem, refNameResolver RefNameResolver, parentIsExternal bool) {
+// derefPaths walks path items: those of the document itself (pathsOfRoot) or those of a callback.
+func (doc *T) derefPaths(paths map[string]*PathItem, refNameResolver RefNameResolver, parentIsExternal bool, pathsOfRoot bool) {
 	for _, name := range componentNames(paths) {
 		ops := paths[name]
 		if ops == nil {
 			continue
+		}
+		// where this path item can be referred to once it is part of the document
+		inlinedAt := ""
+		if pathsOfRoot {
+			inlinedAt = "#/paths/" + strings.NewReplacer("~", "~0", "/", "~1").Replace(name)
 		}
 		// the path items of an external callback are external even though they carry no $ref of their own
 		// (a reference to a path of the root document itself is not external)
 		localPathRef := strings.HasPrefix(ops.Ref, "#/paths/") && !parentIsExternal
 		pathIsExternal := !localPathRef && isExternalRef(ops.Ref, parentIsExternal) || parentIsExternal
 		opsWithMethod := ops.Operations()
-		if localPathRef {
+		if ops.Ref != "" {
 			// A callback may name the path whose operation declares it: such a path item
-			// is reached from inside itself and cannot be inlined, its reference stays.
-			reachedFromInside := false
+			// is reached from inside itself and cannot be inlined. A reference to a path of
+			// the root document stays; one inside an external document becomes a reference
+			// to the root path that this external path is being inlined at.
+			reachedFromInside, enclosing := false, ""
 			for _, op := range opsWithMethod {
-				if _, ok := doc.visited.operationInProgress[op]; ok {
-					reachedFromInside = true
+				if at, ok := doc.visited.operationInProgress[op]; ok {
+					reachedFromInside, enclosing = true, at
 				}
 			}
-			if reachedFromInside {
+			if reachedFromInside && localPathRef {
+				continue
+			}
+			if reachedFromInside && enclosing != "" {
+				ops.Ref = enclosing
 				continue
 			}
 		}
@@ -514,7 +526,7 @@ func (doc *T) derefPaths(paths map[string]*PathItem, refNameResolver RefNameReso
 
 		for _, name := range componentNames(opsWithMethod) {
 			op := opsWithMethod[name]
-			doc.visited.operationInProgress[op] = struct{}{}
+			doc.visited.operationInProgress[op] = inlinedAt
 			isExternal := doc.addRequestBodyToSpec(op.RequestBody, refNameResolver, pathIsExternal)
 			if op.RequestBody != nil && op.RequestBody.Value != nil {
 				doc.derefRequestBody(*op.RequestBody.Value, refNameResolver, pathIsExternal || isExternal)
@@ -525,7 +537,7 @@ func (doc *T) derefPaths(paths map[string]*PathItem, refNameResolver RefNameReso
 				// an operation of a callback may refer to that callback again
 				if cb != nil && cb.Value != nil && !doc.isVisitedCallback(cb.Value) {
 					cbValue := (*cb.Value).Map()
-					doc.derefPaths(cbValue, refNameResolver, pathIsExternal || isExternal)
+					doc.derefPaths(cbValue, refNameResolver, pathIsExternal || isExternal, false)
 				}
 			}
 			doc.derefResponses(op.Responses, refNameResolver, pathIsExternal)
@@ -627,10 +639,10 @@ func (doc *T) InternalizeRefs(ctx context.Context, refNameResolver func(*T, Comp
 			if cb != nil && cb.Value != nil {
 				cb.Ref = "" // always dereference the top level
 				cbValue := (*cb.Value).Map()
-				doc.derefPaths(cbValue, refNameResolver, isExternal)
+				doc.derefPaths(cbValue, refNameResolver, isExternal, false)
 			}
 		}
 	}
 
-	doc.derefPaths(doc.Paths.Map(), refNameResolver, false)
+	doc.derefPaths(doc.Paths.Map(), refNameResolver, false, true)
 }
